@@ -313,70 +313,12 @@ func c01Rotation(c *core.Ctx, o *so.Oracle) {
 	pool := []string{"idp_s1", "idp_s2", "idp_e", "att_x"}
 	mode := "meta"
 	var retired []string
-	kdFor := func(names []string) []saml.KeyDescriptor {
-		var out []saml.KeyDescriptor
-		for _, n := range names {
-			out = append(out, saml.KeyDescriptor{Use: "signing", KeyInfo: saml.KeyInfo{X509Data: saml.X509Data{X509Certificates: []saml.X509Certificate{{Data: fx.K(n).CertB64()}}}}})
-		}
-		// an encryption-use descriptor is always present and never a root
-		out = append(out, saml.KeyDescriptor{Use: "encryption", KeyInfo: saml.KeyInfo{X509Data: saml.X509Data{X509Certificates: []saml.X509Certificate{{Data: fx.K("idp_e").CertB64()}}}}})
-		return out
-	}
 	steps := 5 + c.Rng.Intn(6)
 	for s := 0; s < steps; s++ {
 		// reconfigure (the first step keeps the initial configuration so that something is verified before any change)
 		how := "initial"
 		if s > 0 {
-			var next []string
-			for _, n := range []string{"idp_s1", "idp_s2", "att_xp"} { // att_xp stands for a key the deployment legitimately adds later
-				if c.Rng.Intn(2) == 0 {
-					next = append(next, n)
-				}
-			}
-			if len(next) == 0 {
-				next = []string{[]string{"idp_s1", "idp_s2"}[c.Rng.Intn(2)]}
-			}
-			for _, r := range roots {
-				if !contains(next, r) && !contains(retired, r) {
-					retired = append(retired, r)
-				}
-			}
-			sp.IDPCertificate, sp.IDPCertificateFingerprint, sp.IDPCertificateFingerprintAlgorithm = nil, nil, nil
-			switch k := c.Rng.Intn(6); {
-			case k == 0: // swap the metadata pointer
-				md := so.IDPMetadata("meta-two-signing")
-				md.IDPSSODescriptors[0].KeyDescriptors = kdFor(next)
-				sp.IDPMetadata = md
-				mode, how = "meta", "new-metadata-object"
-			case k == 1: // pin one certificate; metadata keeps the old roots and must be ignored
-				next = next[:1]
-				pin := fx.K(next[0]).CertB64()
-				sp.IDPCertificate = &pin
-				mode, how = "pin", "pinned-certificate"
-			case k == 2:
-				next = next[:1]
-				fp, alg := so.Fingerprint(fx.K(next[0]).Cert.Raw, []string{"sha256", "sha512"}[c.Rng.Intn(2)])
-				sp.IDPCertificateFingerprint, sp.IDPCertificateFingerprintAlgorithm = &fp, &alg
-				mode, how = "fingerprint", "fingerprint"
-			case k == 3: // edit the certificate data of existing descriptors in place (same slice, same length where possible)
-				kds := sp.IDPMetadata.IDPSSODescriptors[0].KeyDescriptors
-				newk := kdFor(next)
-				if len(kds) == len(newk) {
-					for i := range kds {
-						kds[i].Use = newk[i].Use
-						kds[i].KeyInfo.X509Data.X509Certificates[0].Data = newk[i].KeyInfo.X509Data.X509Certificates[0].Data
-					}
-					how = "certificate-data-edited-in-place"
-				} else {
-					sp.IDPMetadata.IDPSSODescriptors[0].KeyDescriptors = newk
-					how = "descriptor-slice-replaced-in-place"
-				}
-				mode = "meta"
-			default: // replace the descriptor slice on the same metadata object
-				sp.IDPMetadata.IDPSSODescriptors[0].KeyDescriptors = kdFor(next)
-				mode, how = "meta", "descriptor-slice-replaced-in-place"
-			}
-			roots = next
+			roots, retired, mode, how = trustReconfigure(c, sp, roots, retired)
 		}
 		c.Observe("c01_reconfigurations", how)
 		// deliveries: prefer retired keys, then current roots, then never-trusted keys
@@ -421,4 +363,69 @@ func contains(l []string, s string) bool {
 		}
 	}
 	return false
+}
+
+// trustReconfigure changes the trust configuration of a live SP by one of the mechanisms a deployment has (in-place edit
+// of the metadata object, replacing the descriptor slice, a fresh metadata object with the same entity ID, pinning a
+// certificate, pinning a fingerprint) and returns the roots that are trusted from now on.
+func trustReconfigure(c *core.Ctx, sp *saml.ServiceProvider, roots, retired []string) ([]string, []string, string, string) {
+	kdFor := func(names []string) []saml.KeyDescriptor {
+		var out []saml.KeyDescriptor
+		for _, n := range names {
+			out = append(out, saml.KeyDescriptor{Use: "signing", KeyInfo: saml.KeyInfo{X509Data: saml.X509Data{X509Certificates: []saml.X509Certificate{{Data: fx.K(n).CertB64()}}}}})
+		}
+		// an encryption-use descriptor is always present and never a root
+		out = append(out, saml.KeyDescriptor{Use: "encryption", KeyInfo: saml.KeyInfo{X509Data: saml.X509Data{X509Certificates: []saml.X509Certificate{{Data: fx.K("idp_e").CertB64()}}}}})
+		return out
+	}
+	mode, how := "meta", ""
+	var next []string
+	for _, n := range []string{"idp_s1", "idp_s2", "att_xp"} { // att_xp stands for a key the deployment legitimately adds later
+		if c.Rng.Intn(2) == 0 {
+			next = append(next, n)
+		}
+	}
+	if len(next) == 0 {
+		next = []string{[]string{"idp_s1", "idp_s2"}[c.Rng.Intn(2)]}
+	}
+	for _, r := range roots {
+		if !contains(next, r) && !contains(retired, r) {
+			retired = append(retired, r)
+		}
+	}
+	sp.IDPCertificate, sp.IDPCertificateFingerprint, sp.IDPCertificateFingerprintAlgorithm = nil, nil, nil
+	switch k := c.Rng.Intn(6); {
+	case k == 0: // swap the metadata pointer
+		md := so.IDPMetadata("meta-two-signing")
+		md.IDPSSODescriptors[0].KeyDescriptors = kdFor(next)
+		sp.IDPMetadata = md
+		how = "new-metadata-object"
+	case k == 1: // pin one certificate; metadata keeps the old roots and must be ignored
+		next = next[:1]
+		pin := fx.K(next[0]).CertB64()
+		sp.IDPCertificate = &pin
+		mode, how = "pin", "pinned-certificate"
+	case k == 2:
+		next = next[:1]
+		fp, alg := so.Fingerprint(fx.K(next[0]).Cert.Raw, []string{"sha256", "sha512"}[c.Rng.Intn(2)])
+		sp.IDPCertificateFingerprint, sp.IDPCertificateFingerprintAlgorithm = &fp, &alg
+		mode, how = "fingerprint", "fingerprint"
+	case k == 3: // edit the certificate data of existing descriptors in place (same slice, same length where possible)
+		kds := sp.IDPMetadata.IDPSSODescriptors[0].KeyDescriptors
+		newk := kdFor(next)
+		if len(kds) == len(newk) {
+			for i := range kds {
+				kds[i].Use = newk[i].Use
+				kds[i].KeyInfo.X509Data.X509Certificates[0].Data = newk[i].KeyInfo.X509Data.X509Certificates[0].Data
+			}
+			how = "certificate-data-edited-in-place"
+		} else {
+			sp.IDPMetadata.IDPSSODescriptors[0].KeyDescriptors = newk
+			how = "descriptor-slice-replaced-in-place"
+		}
+	default: // replace the descriptor slice on the same metadata object
+		sp.IDPMetadata.IDPSSODescriptors[0].KeyDescriptors = kdFor(next)
+		how = "descriptor-slice-replaced-in-place"
+	}
+	return next, retired, mode, how
 }
